@@ -111,7 +111,7 @@ func c11Process(c *vk.Ctx, r *rand.Rand, round int) bool {
 	retired := map[string]KeySpec{} // keys that were configured on the retained address at some point and are not any more
 	cur := mkConf(0, true)
 	overlap := time.Duration(80+r.Intn(150)) * time.Millisecond
-	srv, err := StartServer(c.RunDir, cur, ServerOpts{Env: []string{"VERIF_POINT_newStarted=" + overlap.String()}, UDPTimeout: 2 * time.Second})
+	srv, err := StartServer(c.RunDir, cur, ServerOpts{Env: []string{"VERIF_POINT_newStarted=" + overlap.String()}, UDPTimeout: 2 * time.Second, ReplayHistory: []int{500, 0, 10000}[round%3]})
 	if err != nil {
 		c.Violation("C11/server-does-not-start", err.Error())
 		if srv != nil {
